@@ -219,7 +219,7 @@ func (r *c27Run) Main(s *sim.Sim) {
 			r.mu.Lock()
 			noTimeout := r.lastHint == 0xffffffff
 			r.mu.Unlock()
-			if publishLoopPaused() {
+			if publishLoopPaused(cl) {
 				hint = "paused"
 			} else if noTimeout {
 				hint = "waiting-for-a-request-sent-without-timeout"
